@@ -41,7 +41,7 @@ Proof. exact status_store_frame. Qed.
 Print Assumptions C09_status_store_keeps_queues.
 
 Example C09_example :
-  match drun_from 1 [DAcceptJ; DReserve 0 1; DStatusStore 2; DCurLoad 1; DRecheck 2; DUnresDoomed; DCurLoad 0] with
+  match drun_from 1 [DAcceptJ; DReserve 1 1; DStatusStore 2; DCurLoad 1; DRecheck 2; DUnresDoomed; DCurLoad 0] with
   | inr s => hold s = true /\ jl s = JInQ /\ qj s = 1
   | inl _ => False
   end.
